@@ -344,7 +344,11 @@ theorem exact_spec' (e : Int) (ds : List Nat) :
   · simp [Gen.V3.formatSpecForG, maxInt]
   · simp [Gen.V3.formatSpecForG, maxInt]
   · simp [Gen.V3.formatSpecForG, maxInt, Gen.V3.bigExponent]
-    intro h; have := of_decide_eq_true h; omega
+    all_goals first
+      | done
+      | omega
+      | (intro h; have := of_decide_eq_true h; omega)
+      | grind
   · intro; simp [Gen.V3.formatSpecForG, maxInt]
   · split
     · omega
